@@ -98,7 +98,10 @@ class HTTPChannel(wasyncore.dispatcher):
             # 2. The data in the out buffer should be sent as soon as possible
             #    because it's either data left over from task output
             #    or a 100 Continue line sent within "received".
-            flush = self._flush_some
+            # 3. A task that has just finished may still be flushing a
+            #    100 Continue line for the next request under the outbuf
+            #    lock, so never flush without it.
+            flush = self._flush_some_if_lockable
         elif self.total_outbufs_len >= self.adj.send_bytes:
             # 1. There's a running task, so we need to try to lock
             #    the outbuf before sending
@@ -185,7 +188,7 @@ class HTTPChannel(wasyncore.dispatcher):
             self.current_outbuf_count += num_bytes
             self.total_outbufs_len += num_bytes
             self.sent_continue = True
-            self._flush_some()
+            self._flush_exception(self._flush_some, do_close=False)
 
     def received(self, data):
         """
